@@ -350,3 +350,9 @@ func Hash(n string, d []byte) []byte {
 	h.Write(d)
 	return h.Sum(nil)
 }
+
+// CbcEnc3DES / CbcDec3DES: two-key 3DES CBC with zero IV (BAC cryptograms), for adversary models.
+func CbcEnc3DES(key, data []byte) []byte { return cbcEnc(newBlock(TDES, key), make([]byte, 8), data) }
+func CbcDec3DES(key, data []byte) ([]byte, error) {
+	return cbcDec(newBlock(TDES, key), make([]byte, 8), data)
+}
